@@ -13,8 +13,8 @@ PoolC == {Nil, E(1, "iri"), E(1, "slash"), E(2, "object"), E(3, "iri")}         
 
 GHeads == [class : {"plain", "activity"}, actor : {Nil}, object : {Nil}]
           \cup [class : {"block"}, actor : {Nil}, object : {Nil, E(1, "actor"), E(1, "iri"), E(2, "object"), E(1, "list1")}]   \* list1: the blocked one as a list of one
-          \cup [class : {"intransitive"}, actor : {Nil, E(1, "actor"), E(1, "https"), E(2, "iri")}, object : {Nil}]
-          \cup [class : {"question"}, actor : {Nil, E(2, "actor")}, object : {Nil}]
+          \cup [class : {"intransitive"}, actor : {Nil, E(1, "actor"), E(1, "https"), E(2, "iri"), E(1, "list1")}, object : {Nil}]
+          \cup [class : {"question"}, actor : {Nil, E(2, "actor"), E(2, "list1")}, object : {Nil}]
 
 GInit == /\ \E all \in Lists(MaxTotal) : \E c \in Cuts(Len(all)) : \E h \in GHeads :
               st = h @@ Cut(all, c[1], c[2], c[3], c[4])
